@@ -67,7 +67,22 @@ Qed.
                                       locations (m, n) of the experiment at index z*G + m) to the exact value
                                       E li (projection of the sample's joint map) k
       Conclusion: reconstruction returns the uncut expectation values, for every observable. *)
-Theorem c01_roundtrip :
+(* FULL STATEMENT (the property text; NOT proved, kept visible):
+     forall circuit labels observables, well_formed ->
+       reconstruct (run_exactly (generate (partition_problem circuit labels observables) inf))
+         = map (expectation_of_uncut circuit) observables          (or Refused on an idle-qubit observable)
+   PROVED below (hence the name _partial): the same conclusion from hypotheses.  What stays UNDISCHARGED:
+     * P1, P2+P3 (physics; n-qubit Hilbert-space semantics is not formalised) and the "exact results" equation that
+       identifies the decoded results of partition li, sample z with E li (projection) k;
+     * that the projection lists L, the lookup tables / group sizes and the per-partition counts are the ones the models
+       of partition_problem / _get_mapping_ids_by_partition / ObservableCollection produce: C10's c10_cuts (the two
+       halves of cut k carry suffix k, in the partitions of its two qubits) and C05's c05_scans / c05_counts_layout /
+       c05_projection state them for the models, but no theorem here derives "every cut id occurs in exactly two
+       projection lists" from them; the correspondence checks these facts on the implementation's output instead
+       (projection_ok_sep, counts_ok, lookup_ok);
+     * exact_weights is discharged from the C04 model only under no_subcutoff_map (c01_weights_from_c04);
+       the coefficient list is discharged from the C05 model (c01_roundtrip_generated_partial). *)
+Theorem c01_roundtrip_partial :
   forall (C : list (list Q)) (L : list (list nat)) (nobs : nat)
          (term : jkey -> nat -> Q) (Ev : nat -> Q) (E : nat -> jkey -> nat -> Q),
   (forall k, k < nobs ->
@@ -96,7 +111,7 @@ Proof. exact roundtrip. Qed.
 
 (* the same with the coefficient list literally PRODUCED by the C05 model of generate_cutting_experiments (its shared
    second half `core`, reached by both call forms: c05_generate_is_core) on the exact weights *)
-Theorem c01_roundtrip_generated :
+Theorem c01_roundtrip_generated_partial :
   forall gh gsx env (C : list (list Q)) table og (W : sdict) out (cq : list (Q * wkind))
          (L : list (list nat)) (nobs : nat) (term : jkey -> nat -> Q) (Ev : nat -> Q) (E : nat -> jkey -> nat -> Q),
   core gh gsx env C table og W = Ok (out, cq) ->
@@ -146,7 +161,7 @@ Proof. exact coefficient_sum. Qed.
 
 (* the separated form on the PUBLIC function reconstruct_expectation_values (Model/Reconstruct.reconstruct): the key
    set and phase validations pass, each partition's results are found under its label *)
-Theorem c01_roundtrip_public :
+Theorem c01_roundtrip_public_partial :
   forall (C : list (list Q)) (L : list (list nat)) (term : jkey -> nat -> Q) (Ev : nat -> Q)
          (E : nat -> jkey -> nat -> Q) (W : sdict) (cq : list (Q * wkind)) pyint0 den
          (p0 : Reconstruct.part) (ps : list Reconstruct.part) (m : list (nat * Reconstruct.pdata)),
@@ -176,7 +191,7 @@ Proof. exact roundtrip_public. Qed.
 (* ------------------------------------------------------------------------------------------------
    3. the unseparated call form (cut gates marked in one circuit): the instance |L| = 1, label "A",
       projection = identity, stated on the public reconstruct with a PauliList / single result *)
-Theorem c01_unseparated :
+Theorem c01_unseparated_partial :
   forall (C : list (list Q)) (nobs : nat) (term : jkey -> nat -> Q) (Ev : nat -> Q) (E0 : jkey -> nat -> Q)
          (W : sdict) (cq : list (Q * wkind)) pyint0 den (p : Reconstruct.part) (d : Reconstruct.pdata),
   (forall k, k < nobs ->
@@ -208,7 +223,7 @@ Proof. exact project_identity. Qed.
         (value computed with the code's coefficients) * (1 - delta) = Ev k - lost k;
         |lost k| <= D * cutoff * kappa * B     whenever |term ids k| <= B on the omitted maps.
       Hence |computed - Ev| <= (delta |Ev| + D cutoff kappa B) / (1 - delta): of order D * 1e-14 * kappa.
-      (c01_roundtrip itself assumes no such map: exact_weights.) *)
+      (c01_roundtrip_partial itself assumes no such map: exact_weights.) *)
 Theorem c01_subcutoff :
   forall (C : list (list Q)) (L : list (list nat)) (nobs : nat) (term : jkey -> nat -> Q) (Ev : nat -> Q)
          (E : nat -> jkey -> nat -> Q),
@@ -289,7 +304,7 @@ Proof.
 Qed.
 
 (* ------------------------------------------------------------------------------------------------
-   7. NON-VACUITY: a concrete problem on which every hypothesis of c01_roundtrip holds and everything is computed
+   7. NON-VACUITY: a concrete problem on which every hypothesis of c01_roundtrip_partial holds and everything is computed
       exactly inside Coq.   Circuit  h 0 ; cx 0 1  on two qubits, partitions A = {qubit 0} | B = {qubit 1}, the cx is
       cut with the REAL basis of Model/Bases.v (six maps, coefficients +-1/2), observables ZZ, XX, IZ.
         Ev          from the exact Pauli-transfer matrix of cx (Common/Ptm.v) applied to the Bell circuit
@@ -447,7 +462,7 @@ Proof.
   destruct c01_hyps_satisfiable as (P1 & P23 & _).
   destruct c01_ex_bookkeeping as (Hk & HW & Hcq & _).
   destruct c01_ex_results as (H1 & H2 & H3 & H4 & H5).
-  exact (c01_roundtrip Ex.C Ex.L 3 Ex.term_ Ex.Ev Ex.E_ P1 P23 Ex.W Ex.cq Hk HW Hcq
+  exact (c01_roundtrip_partial Ex.C Ex.L 3 Ex.term_ Ex.Ev Ex.E_ P1 P23 Ex.W Ex.cq Hk HW Hcq
            Reconstruct.pyint0_ref Ex.den Ex.pds H1 H2 H3 H4 H5).
 Qed.
 
@@ -471,12 +486,12 @@ Print Assumptions c01_all_maps.
 Print Assumptions c01_support_sum.
 Print Assumptions c01_multilinear.
 Print Assumptions c01_c05_vocabulary.
-Print Assumptions c01_roundtrip.
-Print Assumptions c01_roundtrip_generated.
+Print Assumptions c01_roundtrip_partial.
+Print Assumptions c01_roundtrip_generated_partial.
 Print Assumptions c01_expansion.
 Print Assumptions c01_listed_samples.
-Print Assumptions c01_roundtrip_public.
-Print Assumptions c01_unseparated.
+Print Assumptions c01_roundtrip_public_partial.
+Print Assumptions c01_unseparated_partial.
 Print Assumptions c01_identity_projection.
 Print Assumptions c01_subcutoff.
 Print Assumptions c01_weights_from_c04.
